@@ -278,9 +278,14 @@ def generated(ctx, rng):
             shape = shapes[si % len(shapes)]
             si += 1
             cl = G.SHAPES[shape]
-        out.append(G.make_scenario(rng, 's%d_%d_%s' % (ctx.seed, i, shape), shape, cl, nmethods=18 if not ctx.thorough else 16,
-                                   moveonly=(i % 2 == 0), sanitize=(i % 2 == 1), ndebug=(i % 4 >= 2),
-                                   registration='macro' if i % 3 else 'template'))
+        scn = G.make_scenario(rng, 's%d_%d_%s' % (ctx.seed, i, shape), shape, cl, nmethods=18 if not ctx.thorough else 16,
+                              moveonly=(i % 2 == 0), sanitize=(i % 2 == 1), ndebug=(i % 4 >= 2),
+                              registration='macro' if i % 3 else 'template')
+        if i % 4 == 1:
+            # the same program with every virtual parameter, argument and definition parameter const-qualified
+            scn['flags']['const_pointee'] = True
+            scn['name'] += '_const'
+        out.append(scn)
     return out
 
 
